@@ -47,6 +47,17 @@ def par_text(align, mos, defer, style):
         return text.lower()
     if style == "upper":
         return text.upper()
+    if style == "title":                        # None, Xmidymid Meet, Defer ...
+        return text.title()
+    if style == "swap":
+        return text.swapcase()
+    if style.startswith("bits"):                # every upper/lower pattern of the first 4 letters
+        bits = int(style[4:])
+        head = "".join(ch.upper() if bits >> k & 1 else ch.lower()
+                       for k, ch in enumerate(words[-1 if mos is None else -2][:4]))
+        words = list(words)
+        words[-1 if mos is None else -2] = head + words[-1 if mos is None else -2][4:]
+        return " ".join(words)
     if style == "comma":
         return ",".join(words)
     if style == "blanks":
@@ -250,7 +261,8 @@ def _separator_chunk(cases):
     """Full product of separator / case spellings of both attributes (SVG: numbers and words
     are separated by white space - space, tab, LF, CR - and/or a comma)."""
     part = core.Part()
-    par_styles = ["canon", "lower", "upper", "comma", "blanks"] + sorted(WHITESPACE_STYLES)
+    par_styles = ["canon", "lower", "upper", "title", "swap", "comma", "blanks"] + \
+        sorted(WHITESPACE_STYLES) + [f"bits{k}" for k in range(16)]
     vb_styles = ["space", "comma", "mixed"] + sorted(WHITESPACE_STYLES)
     for vbox, doc in cases:
         for align, mos, defer in itertools.product(ALIGNS, ("meet", "slice", None), (False, True)):
@@ -269,7 +281,7 @@ def _separator_chunk(cases):
 def _chunk(args):
     vboxes, docs = args
     part = core.Part()
-    styles = ["canon", "lower", "upper", "comma", "blanks"]
+    styles = ["canon", "lower", "upper", "comma", "blanks", "title", "swap"]
     for vbox in vboxes:
         for doc in (docs if docs and isinstance(docs[0], tuple) else
                     itertools.product(docs, docs)):
